@@ -144,7 +144,7 @@ if not H.P('driver'):
     OPS1 = H.P('ops1') or TAB.binops
     OPS2 = H.P('ops2') or TAB.binops
     OPS3 = H.P('ops3') or TAB.binops
-    PRES = [None] + TAB.preops
+    PRES = [None] + (H.P('pres') or TAB.preops)
     SUFS = [None] + TAB.sufops
 else:
     ENG = TAB = None
@@ -208,7 +208,10 @@ def triples(o1: int, o2: int, o3: int) -> bool:
     return H.done(ok)
 
 
-SHAPES = H.P('shapes') or ['var', 'index', 'call', 'method', 'list', 'map', 'paren-var', 'index-expr', 'call-expr', 'index2']
+SHAPES_ALL = ['var', 'index', 'call', 'method', 'list', 'map', 'paren-var', 'index-expr', 'call-expr', 'index2']
+
+
+SHAPES = H.P('shapes') or SHAPES_ALL
 
 
 def operand_tokens(shape, name, inner_op):
@@ -453,31 +456,64 @@ def is_bin(k):
     return k == R.LEFT or k == R.RIGHT
 
 
-def dup_ok(n, ks, du, db):
-    if du == -1:
-        return db == -1
-    return 0 <= du < n and 0 <= db < n and du != db and is_un(ks[du]) and is_bin(ks[db])
+ANCHOR = H.P('anchor')          # shard: index of the anchor record (-1 = None, n = a symbol not in the table)
 
 
-def insert_op(ks: List[str], bs: List[bool], nvp: bool, du: int, db: int, anchor: int, ab: bool, newk: str,
+class LazyKind:
+    """stands for one of the four operator-type constants; which one is decided by two solver booleans the first
+    time the code under test compares it with a constant (records whose type is never read stay undecided, so one
+    path covers all their types)"""
+    __slots__ = ('a', 'b')
+
+    def __init__(self, a, b):
+        self.a, self.b = a, b
+
+    def value(self):
+        if self.a:
+            return R.PREFIX if self.b else R.SUFFIX
+        return R.LEFT if self.b else R.RIGHT
+
+    def __eq__(self, other):
+        if isinstance(other, LazyKind):
+            return other is self or self.value() == other.value()
+        return self.value() == other
+
+    def __ne__(self, other):
+        return not self.__eq__(other)
+
+    def __hash__(self):
+        return hash(self.value())
+
+    def __repr__(self):
+        return 'Kind(%s)' % self.value()
+
+
+def insert_op(ka: List[bool], kb: List[bool], bs: List[bool], dup: int, rev: bool, na: bool, nb: bool, ab: bool,
               create: bool) -> bool:
     """
-    pre: len(ks) == NB and len(bs) == NB
-    pre: -1 <= du < NB and -1 <= db < NB and dup_ok(NB, ks, du, db)
-    pre: -1 <= anchor <= NB
+    pre: len(ka) == NB and len(kb) == NB and len(bs) == NB
+    pre: -1 <= dup < NB - 1
     post: _
     """
     n = NB
+    anchor = ANCHOR
     recs = []
-    if nvp:
+    if H.P('nvp', True):
         recs.append(('=>', R.NVP))
-    syms = []
+    syms = list(SYMS_B[:n])
+    kinds = [LazyKind(ka[i], kb[i]) for i in range(n)]
+    newk = LazyKind(na, nb)
+    if dup >= 0:
+        # records dup and dup+1 carry one symbol: one unary and one binary record (either order, as '+' / '-' in the
+        # default table)
+        u, b = (dup, dup + 1) if rev else (dup + 1, dup)
+        syms[u] = syms[b]
+        kinds[u] = LazyKind(True, ka[u])
+        kinds[b] = LazyKind(False, ka[b])
     for i in range(n):
         if i and bs[i]:
             recs.append(())
-        sym = SYMS_B[db] if i == du else SYMS_B[i]
-        syms.append(sym)
-        recs.append((sym, ks[i]))
+        recs.append((syms[i], kinds[i]))
     anchor_sym = None if anchor == -1 else ('nosuch' if anchor == n else syms[anchor])
     new = ('@', newk, None)
     fac = yfactory.YaqlFactory()
@@ -505,3 +541,228 @@ def insert_op(ks: List[str], bs: List[bool], nvp: bool, du: int, db: int, anchor
         else:
             ok = R.is_normal_form(got2) and R.groups_of(got2) == exp2
     return H.done(ok)
+
+
+# ---------------------------------------------------------------------------------------------- conditions
+def focus_ops(tab, base_tab):
+    """operators whose relative binding an insertion can have changed: the new symbols, the members of their groups,
+    one operator of each adjacent group, and the first and last binary operator of the table"""
+    new = [s for s in list(tab.binp) + list(tab.prep) + list(tab.sufp)
+           if s not in base_tab.binp and s not in base_tab.prep and s not in base_tab.sufp]
+    new += [s for s in tab.prep if s in base_tab.binp and s not in base_tab.prep]
+    lv = set()
+    for s in new:
+        for d in (tab.binp, tab.prep, tab.sufp):
+            if s in d:
+                lv.add(d[s][0] if isinstance(d[s], tuple) else d[s])
+    out = []
+    for s in tab.binops:
+        if tab.binp[s][0] in lv and s not in out:
+            out.append(s)
+    for l in sorted(lv):
+        for d in (-1, 1):
+            near = [s for s in tab.binops if tab.binp[s][0] == l + d]
+            if not near:
+                near = [s for s in tab.binops if tab.binp[s][0] == l + 2 * d]
+            if near and near[0] not in out:
+                out.append(near[0])
+    for s in (tab.binops[0], tab.binops[-1]):
+        if s not in out:
+            out.append(s)
+    return out, new
+
+
+def conditions(tier, seed):
+    quick = tier == 'quick'
+    out = []
+
+    def add(name, func, param, bounds, timeout=300, **kw):
+        out.append(dict({'name': name, 'func': func, 'timeout': timeout, 'param': param, 'bounds': bounds}, **kw))
+
+    # ---- A
+    nmax = 4 if quick else 5
+    for n in range(1, nmax + 1):
+        add('A.table_to_ply[n=%d]' % n, 'table_to_ply', {'n': n, 'reuse2': (not quick and n <= 4)},
+            'all homogeneous tables of exactly %d records (kinds, group breaks as solver booleans), each with every '
+            'choice of <=%d unary record(s) taking a binary record\'s symbol; each path is one table'
+            % (n, 2 if (not quick and n <= 4) else 1), timeout=900 if quick else 3000)
+    # ---- B
+    nb = 3 if quick else 4
+    for n in range(1, nb + 1):
+        for anchor in range(-1, n + 1):
+            add('B.insert_operator[n=%d,anchor=%d]' % (n, anchor), 'insert_op',
+                {'n': n, 'anchor': anchor, 'second': n < nb, 'nvp': True},
+                'table of %d records after the keyword-operator record; record types undecided until read (4 types), '
+                'all group-break vectors, optionally two adjacent records sharing a symbol (unary+binary), anchor = %s, '
+                'symbolic arity flag / new type / create_group%s'
+                % (n, 'None' if anchor < 0 else ('missing symbol' if anchor == n else 'record %d' % anchor),
+                   '; followed by a second insertion anchored at the new operator' if n < nb else ''),
+                timeout=400)
+    if not quick:
+        for anchor in range(-1, 3):
+            add('B.insert_operator[n=2,anchor=%d,no-nvp]' % anchor, 'insert_op',
+                {'n': 2, 'anchor': anchor, 'second': True, 'nvp': False}, 'as above, table without keyword operator '
+                '(legacy)', timeout=400)
+    # ---- C
+    dtab = R.Table(make_factory('default').operators)
+    for a in dtab.binops:
+        add('C.pairs[default,%s]' % a, 'pairs', {'table': 'default', 'ops1': [a]},
+            'default table: first operator %s, every second binary operator (%d), every placement of <=2 prefix '
+            'operators (none,+,-,not)^2; text selected by symbolic indices, one concrete parse per path'
+            % (a, len(dtab.binops)), timeout=300)
+    ltab = R.Table(make_factory('legacy').operators)
+    if quick:
+        add('C.pairs[legacy,=> first]', 'pairs', {'table': 'legacy', 'ops1': ['=>']},
+            'legacy table: => against every binary operator, <=2 prefix operators', timeout=300)
+        add('C.pairs[legacy,=> second]', 'pairs', {'table': 'legacy', 'ops2': ['=>']},
+            'legacy table: every binary operator against =>, <=2 prefix operators', timeout=300)
+    else:
+        for a in ltab.binops:
+            add('C.pairs[legacy,%s]' % a, 'pairs', {'table': 'legacy', 'ops1': [a]},
+                'legacy table: first operator %s, every second operator, <=2 prefix operators' % a, timeout=300)
+    names = ['prefix-in-left-group', 'prefix-in-right-group', 'suffix-group', 'unary-reuses-binary-symbol'] if quick \
+        else list(INSERT_TABLES)
+    specs = [(n, n) for n in names]
+    if not quick:
+        rnd = random.Random(seed)
+        for k in range(4):
+            sp = random_insert_spec(rnd)
+            specs.append(('seeded%d:%s' % (k, ';'.join('%s/%s/%s' % (o[0], o[2], o[3][:3] + ('+g' if o[4] else ''))
+                                                       for o in sp[1])), sp))
+    for label, sp in specs:
+        f = make_factory(sp)
+        tab = R.Table(f.operators)
+        base = R.Table(make_factory(sp if isinstance(sp, str) and sp in ('default', 'legacy')
+                                    else (INSERT_TABLES[sp][0] if isinstance(sp, str) else sp[0])).operators)
+        foc, new = focus_ops(tab, base)
+        if quick:
+            pres = [p for p in tab.preops if p in new] + ['-']
+            param = {'table': sp, 'ops1': foc, 'ops2': foc}
+            if len(tab.sufops):
+                param['pres'] = pres[:1]
+            add('C.pairs[%s]' % label, 'pairs', param,
+                'table %s: pairs over %s x all prefix (and suffix) placements' % (label, foc), timeout=400)
+        else:
+            for a in tab.binops:
+                param = {'table': sp, 'ops1': [a]}
+                if len(tab.sufops):
+                    param['pres'] = [p for p in tab.preops if p in new] + ['-', 'not']
+                add('C.pairs[%s,%s]' % (label, a), 'pairs', param,
+                    'table %s: first operator %s x every second operator x prefix/suffix placements' % (label, a),
+                    timeout=600)
+    # triples without prefixes
+    if not quick:
+        for tname in ('default', 'legacy'):
+            t = R.Table(make_factory(tname).operators)
+            for a in t.binops:
+                add('C.triples[%s,%s]' % (tname, a), 'triples', {'table': tname, 'ops1': [a]},
+                    '%s table: first operator %s, every 2nd and 3rd binary operator, no prefix' % (tname, a),
+                    timeout=400)
+    else:
+        for a in ('*', '->', 'and'):
+            add('C.triples[default,%s]' % a, 'triples', {'table': 'default', 'ops1': [a]},
+                'default table: first operator %s, every 2nd and 3rd binary operator, no prefix' % a, timeout=400)
+    # variants: parentheses, index, call, list, map, white space
+    vops = ['.', '*', '->'] if quick else ['.', '*', '+', 'and', '->']
+    for tname in (('default',) if quick else ('default', 'legacy', 'suffix-group')):
+        for sh in SHAPES_ALL:
+            add('C.variants[%s,%s]' % (tname, sh), 'variants', {'table': tname, 'ops1': vops, 'ops2': vops,
+                                                               'shapes': [sh], 'pres': ['-'] if quick else ['-', 'not']},
+                '%s table: operator pairs over %s, operand shape %s at each of 3 positions, 5 parenthesisations, 3 '
+                'white-space renderings, optional leading prefix operator' % (tname, vops, sh), timeout=400)
+    return out
+
+
+# ---------------------------------------------------------------------------------------------- validate / replay
+def _eval_ref(tree, env):
+    k = tree[0]
+    if k == 'V':
+        return env[tree[1]]
+    if k == 'U':
+        v = _eval_ref(tree[2], env)
+        return {'-': lambda: -v, '+': lambda: +v, 'not': lambda: not v}[tree[1]]()
+    a, b = _eval_ref(tree[2], env), _eval_ref(tree[3], env)
+    import operator as op
+    return {'+': op.add, '-': op.sub, '*': op.mul, '/': op.floordiv, 'mod': op.mod, '>': op.gt, '<': op.lt,
+            '>=': op.ge, '<=': op.le, '=': op.eq, '!=': op.ne, 'and': lambda x, y: x and y,
+            'or': lambda x, y: x or y}[tree[1]](a, b)
+
+
+def validate():
+    """the reference's reading of the default table reproduces the values yaql's own tests and documentation expect
+    (grouping visible through arithmetic), evaluated on the reference TREE with Python operators"""
+    bad = []
+    f = make_factory('default')
+    tab = R.Table(f.operators)
+    eng = f.create()
+    ctx = yaql.create_context()
+    env = {'$a': 7, '$b': 2, '$c': 3, '$d': 5}
+    for k, v in env.items():
+        ctx[k] = v
+    ops = ['+', '-', '*', '/', 'mod', '>', '<=', '=', '!=']
+    n = 0
+    for o1 in ops:
+        for o2 in ops:
+            for o3 in ('+', '*', '-'):
+                for u in (None, '-'):
+                    toks = seq_tokens([o1, o2, o3], [None, u], [])
+                    text = R.render(toks)
+                    tree = R.ref_parse(toks, tab)
+                    try:
+                        exp = ('ok', _eval_ref(tree, env))
+                    except Exception as e:
+                        exp = ('err', type(e).__name__)
+                    try:
+                        got = ('ok', eng(text).evaluate(context=ctx))
+                    except Exception as e:
+                        got = ('err', type(e).__name__)
+                    n += 1
+                    if exp[0] == 'ok' and got[0] == 'ok' and (got[1] != exp[1] or type(got[1]) is not type(exp[1])):
+                        bad.append('reference tree of %r evaluates to %r, yaql gives %r' % (text, exp[1], got[1]))
+    # documented examples (doc/source/language_reference.rst, tests/test_engine.py)
+    for text, exp in [('1 + 2 * 3', 7), ('(1 + 2) * 3', 9), ('not true or true', True), ('2 - 1 - 1', 0),
+                      ('-2 + 5', 3), ('1 < 2 and 2 < 3', True), ('[1, 2][0] + 1', 2), ('let(x => 3) -> $x + 1', 4)]:
+        got = eng(text).evaluate(context=ctx)
+        if got != exp:
+            bad.append('documented example %r gives %r, expected %r' % (text, got, exp))
+    return bad[:5]
+
+
+def _c_tokens(cond, a):
+    fn = cond['func']
+    if fn == 'pairs':
+        return seq_tokens([OPS1[a['o1']], OPS2[a['o2']]], [PRES[a['u0']], PRES[a['u1']]], [SUFS[a['s0']], SUFS[a['s1']]])
+    if fn == 'triples':
+        return seq_tokens([OPS1[a['o1']], OPS2[a['o2']], OPS3[a['o3']]], [], [])
+    return None
+
+
+def replay(cond, args):
+    """re-run the selection on plain CPython: the text is parsed by a freshly built real engine (public API) and
+    compared with the reference; for A/B the real table code is re-run on the concrete table"""
+    import props.c02 as me
+    fn = getattr(me, cond['func'])
+    try:
+        ok = fn(**args)
+    except Exception as e:
+        return {'reproduced': True, 'key': 'C02/exception/%s/%s' % (cond['func'], type(e).__name__),
+                'what': '%s%r raised %r' % (cond['name'], args, e)}
+    if ok:
+        return {'reproduced': False}
+    table = (cond.get('param') or {}).get('table', 'default')
+    label = table if isinstance(table, str) else 'inserted'
+    if cond['func'] in ('pairs', 'triples'):
+        toks = _c_tokens(cond, args)
+        okk, text, got, exp = check_tokens(toks, H.P('ws', 0))
+        return {'reproduced': True, 'key': 'C02/tree/%s' % label,
+                'what': 'table %s: %r parses as %r, the operator table demands %r' % (table, text, got, exp)}
+    if cond['func'] == 'variants':
+        return {'reproduced': True, 'key': 'C02/tree-variant/%s' % label,
+                'what': 'table %s: variant %r: real parse differs from the reference' % (table, args)}
+    if cond['func'] == 'table_to_ply':
+        kinds, breaks = decode_table(NA, args['g'], args['ta'], args['tb'], args['p'])
+        return {'reproduced': True, 'key': 'C02/table-to-ply',
+                'what': 'table kinds=%r breaks=%r reuse#%r: generated ply precedence/rules do not encode the table'
+                        % (kinds, breaks, args['r'])}
+    return {'reproduced': True, 'key': 'C02/insert-operator',
+            'what': 'insert_operator on %r differs from the list-of-groups reference' % (args,)}
